@@ -983,7 +983,7 @@ func (s *search) dirChildren(ctx context.Context, br blob.Ref) (map[blob.Ref]str
 	ch := make(chan blob.Ref)
 	errch := make(chan error)
 	go func() {
-		errch <- s.h.index.GetDirMembers(ctx, br, ch, s.q.Limit)
+		errch <- s.h.index.GetDirMembers(ctx, br, ch, 0) // all children: the query's Limit bounds results, not children
 	}()
 	children := make(map[blob.Ref]struct{})
 	for child := range ch {
